@@ -142,6 +142,104 @@ def loaded_ids(rr):
     return out
 
 
+def git_in(args, cwd, inp=None, env=None):
+    p = subprocess.run(["git"] + args, cwd=cwd, env=dict(GENV, **(env or {})), input=inp, capture_output=True, text=True)
+    if p.returncode != 0:
+        raise Infra("git %s failed: %s" % (args, p.stderr))
+    return p.stdout
+
+
+def history_desc(h):
+    """the whole repository as data, for the replay file: every commit (parents first) with its message and complete tree
+    [(mode, path, blob id)], the blobs, every ref (annotated tags marked), HEAD, and the uncommitted files"""
+    if getattr(h, "_desc", None) is not None:
+        return h._desc
+    commits, blobs = [], {}
+    for line in git(["rev-list", "--all", "--topo-order", "--reverse", "--parents"], h.root).split("\n"):
+        if not line.strip():
+            continue
+        sha, parents = line.split()[0], line.split()[1:]
+        tree = []
+        for mode, typ, oid, path in h.tree(sha):
+            if typ == "blob" and oid not in blobs:
+                blobs[oid] = git(["cat-file", "blob", oid], h.root)
+            tree.append([mode, path, oid])
+        msg = git(["log", "-1", "--format=%B", sha], h.root).rstrip("\n")
+        commits.append({"sha": sha, "parents": parents, "message": msg, "tree": tree})
+    refs = []
+    fmt = "%(refname)%09%(objecttype)%09%(objectname)%09%(*objectname)%09%(contents:subject)"
+    for line in git(["for-each-ref", "--format=" + fmt], h.root).split("\n"):
+        if line.strip():
+            name, typ, oid, peeled, subj = (line.split("\t") + ["", "", "", ""])[:5]
+            refs.append({"name": name, "annotated": typ == "tag", "commit": peeled if typ == "tag" else oid, "subject": subj})
+    extra = []
+    for nm, staged in (("dirty", False), ("staged", True)):
+        rel = "%s/%s.%s" % (h.d, nm, h.x)
+        fp = os.path.join(h.root, rel)
+        if os.path.exists(fp):
+            extra.append({"path": rel, "content": open(fp).read(), "staged": staged})
+    h._desc = {"commits": commits, "blobs": blobs, "refs": refs, "head": git(["symbolic-ref", "-q", "HEAD"], h.root, check=False).strip(),
+               "uncommitted": extra}
+    return h._desc
+
+
+def rebuild_history(desc, root):
+    """the repository of history_desc() again (same author/committer/dates: the commit ids come out the same);
+    -> {stored commit id: commit id in the rebuilt repository}"""
+    shutil.rmtree(root, ignore_errors=True)
+    os.makedirs(root)
+    git(["init", "-q", "-b", "main", "."], root)
+    newblob = {}
+    for oid, text in desc["blobs"].items():
+        newblob[oid] = git_in(["hash-object", "-w", "--stdin"], root, inp=text).strip()
+    idx = {"GIT_INDEX_FILE": os.path.join(root, ".git", "replay-index")}
+    new = {}
+    for c in desc["commits"]:
+        git_in(["read-tree", "--empty"], root, env=idx)
+        info = "".join("%s %s\t%s\n" % (mode, newblob.get(oid, oid), path) for mode, path, oid in c["tree"])
+        if info:
+            git_in(["update-index", "--add", "--index-info"], root, inp=info, env=idx)
+        tree = git_in(["write-tree"], root, env=idx).strip()
+        args = ["commit-tree", tree]
+        for p_ in c["parents"]:
+            args += ["-p", new[p_]]
+        new[c["sha"]] = git_in(args + ["-m", c["message"]], root).strip()
+    for r in desc["refs"]:
+        if r["annotated"]:
+            git_in(["tag", "-a", "-m", r["subject"] or "annotated", r["name"].split("/", 2)[2], new[r["commit"]]], root)
+        else:
+            git_in(["update-ref", r["name"], new[r["commit"]]], root)
+    if desc.get("head"):
+        git_in(["symbolic-ref", "HEAD", desc["head"]], root)
+        git(["reset", "-q", "--hard"], root, check=False)
+    for e in desc.get("uncommitted") or []:
+        fp = os.path.join(root, e["path"])
+        os.makedirs(os.path.dirname(fp), exist_ok=True)
+        open(fp, "w").write(e["content"])
+        if e.get("staged"):
+            git(["add", e["path"]], root)
+    return new
+
+
+def requests_for(h, kind, val, sha, cfg_dir, x, co_root, toml):
+    """the two sessions of one selector: Git storage on the repository, file-system storage on `git archive` of the commit"""
+    co = os.path.join(co_root, "co-%s" % sha[:12])
+    if not os.path.exists(co):
+        os.makedirs(co)
+        ar = subprocess.run(["git", "archive", sha], cwd=h.root, env=GENV, capture_output=True)
+        subprocess.run(["tar", "-x", "-C", co], input=ar.stdout, check=True)
+    base = {"conf": {"toml": toml}, "ops": [{"op": "txns"}, {"op": "metadata"}]}
+    g = dict(base, load="git", git_repo=h.root, git_dir=cfg_dir, git_ext=x)
+    g["git_commit" if kind == "commit" else "git_ref"] = val
+    f = dict(base, load="fsabs", fs_abs=os.path.join(co, cfg_dir), fs_ext=x)
+    return [g, f]
+
+
+def case_of(h, kind, val, sha, cfg_dir, x):
+    """what ./check C08 --replay needs: the repository as data + the selector"""
+    return {"selector": [kind, val], "commit": sha, "dir": cfg_dir, "ext": x, "history": history_desc(h)}
+
+
 def main(run):
     info = proof_stage(run, "C08", extra_targets=["corr/C08_corr.vo"])
     harness_build()
@@ -163,71 +261,11 @@ def main(run):
                 sels.append(("commit", h.shadow[0]))
             for kind, val in sels:
                 sha = val if kind == "commit" and len(val) == 40 else (h.refs.get(val) or [c for c in h.commits if c.startswith(val)][0])
-                co = os.path.join(root, "h%d" % hi, "co-%s" % sha[:12])
-                if not os.path.exists(co):
-                    os.makedirs(co)
-                    ar = subprocess.run(["git", "archive", sha], cwd=h.root, env=GENV, capture_output=True)
-                    subprocess.run(["tar", "-x", "-C", co], input=ar.stdout, check=True)
-                base = {"conf": {"toml": toml}, "ops": [{"op": "txns"}, {"op": "metadata"}]}
-                g = dict(base, load="git", git_repo=h.root, git_dir=cfg_dir, git_ext=x)
-                g["git_commit" if kind == "commit" else "git_ref"] = val
-                f = dict(base, load="fsabs", fs_abs=os.path.join(co, cfg_dir), fs_ext=x)
-                reqs += [g, f]
+                reqs += requests_for(h, kind, val, sha, cfg_dir, x, os.path.join(root, "h%d" % hi), toml)
                 meta.append((h, kind, val, sha, cfg_dir, x))
         res = harness_run(reqs)
-        terms, tmeta = [], []
         distinct = set()
-        for k, (h, kind, val, sha, cfg_dir, x) in enumerate(meta):
-            rg, rf = res[2 * k], res[2 * k + 1]
-            run.cov["evaluations"] += 1
-            gi = loaded_ids(rg)
-            fi = loaded_ids(rf)
-            if fi is None:
-                # fs storage fails when the directory does not exist in that commit or holds no journal: then git must not load anything either
-                fi = []
-                if gi is not None and len(gi) > 0:
-                    pass
-            tree = h.tree(sha)
-            ents = []
-            for mode, typ, oid, path in tree:
-                kd = {"100644": "Blob", "100755": "BlobExec", "120000": "Link"}.get(mode, "Other")
-                ents.append("(mkEntry %s %s %s)" % (g_list([g_str(c) for c in path.split("/")]), kd, g_N(h.blob_id(sha, path))))
-            impl = "None" if gi is None and rg.get("stage") == "load" and "no transactions" not in (rg.get("err") or "") else \
-                   "(Some %s)" % g_list([g_N(i) for i in (gi or [])])
-            terms.append("c08_case %s %s %s %s %s" % (g_list([g_str(c) for c in cfg_dir.split("/")]), g_str(x), g_list(ents), impl,
-                                                     g_list([g_N(i) for i in fi])))
-            tmeta.append(k)
-            distinct.add((tuple(sorted(gi or [])), kind))
-            # metadata: the commit id reported is the one used
-            md = (rg.get("results") or [{}, {}])[1].get("ok") if rg.get("stage") == "done" else None
-            if md and sha not in md:
-                run.violation("the commit id reported in the Git metadata is not the commit that was selected",
-                              {"selector": (kind, val), "expected_commit": sha, "metadata": md, "repository_history": [git(["log", "--all", "--oneline"], h.root)]})
-            if len(run.cov["samples"]) < 2:
-                run.cov["samples"].append({"selector": (kind, val), "commit": sha, "dir": cfg_dir, "ext": x,
-                                           "tree": [(m, p) for m, t, o, p in tree], "loaded_from_git": gi, "loaded_from_checkout": fi})
-        vals, errs = coq_eval("C08", IMPORTS, terms)
-        if errs:
-            raise Infra("coq evaluation failed: " + errs[0])
-        for k, v in zip(tmeta, vals):
-            bits = as_N(v)
-            if bits is None:
-                raise Infra("no result")
-            h, kind, val, sha, cfg_dir, x = meta[k]
-            rg, rf = res[2 * k], res[2 * k + 1]
-            if not (bits & 2):
-                tree = h.tree(sha)
-                run.violation("Git storage loads a different set of files than file-system storage on a checkout of the same commit",
-                              {"selector": (kind, val), "commit": sha, "dir": cfg_dir, "ext": x,
-                               "tree_of_commit": [(m, p, h.blob_id(sha, p)) for m, t, o, p in tree],
-                               "loaded_from_git": loaded_ids(rg), "git_stage": rg.get("stage"), "git_err": (rg.get("err") or "")[:300],
-                               "loaded_from_checkout": loaded_ids(rf), "fs_err": (rf.get("err") or "")[:200],
-                               "replay_hint": "build the tree with git (modes as listed), then tackler --input.git.repository <repo> --input.git.dir %s --input.git.commit %s" % (cfg_dir, sha)})
-            elif not (bits & 1):
-                run.cov["disagreements_checked"] += 1
-                run.violation("correspondence broken: Store.select_git differs from git_to_txns",
-                              {"correspondence": "C08_corr.c08_case", "selector": (kind, val), "commit": sha,
-                               "loaded_from_git": loaded_ids(rg), "git_err": (rg.get("err") or "")[:300]}, found_input=False)
+        judge(run, meta, res, distinct)
     finally:
         shutil.rmtree(root, ignore_errors=True)
     run.cov["distinct_nontrivial"] = len(distinct)
@@ -238,7 +276,99 @@ def main(run):
     return run.finish(info)
 
 
+def judge(run, meta, res, distinct):
+    """meta[k] = (history, selector kind, selector, commit, dir, ext); res[2k], res[2k+1] = the Git and the file-system session"""
+    terms, tmeta = [], []
+    for k, (h, kind, val, sha, cfg_dir, x) in enumerate(meta):
+        rg, rf = res[2 * k], res[2 * k + 1]
+        run.cov["evaluations"] += 1
+        gi = loaded_ids(rg)
+        fi = loaded_ids(rf)
+        if fi is None:
+            # fs storage fails when the directory does not exist in that commit or holds no journal: then git must not load anything either
+            fi = []
+            if gi is not None and len(gi) > 0:
+                pass
+        tree = h.tree(sha)
+        ents = []
+        for mode, typ, oid, path in tree:
+            kd = {"100644": "Blob", "100755": "BlobExec", "120000": "Link"}.get(mode, "Other")
+            ents.append("(mkEntry %s %s %s)" % (g_list([g_str(c) for c in path.split("/")]), kd, g_N(h.blob_id(sha, path))))
+        impl = "None" if gi is None and rg.get("stage") == "load" and "no transactions" not in (rg.get("err") or "") else \
+               "(Some %s)" % g_list([g_N(i) for i in (gi or [])])
+        terms.append("c08_case %s %s %s %s %s" % (g_list([g_str(c) for c in cfg_dir.split("/")]), g_str(x), g_list(ents), impl,
+                                                 g_list([g_N(i) for i in fi])))
+        tmeta.append(k)
+        distinct.add((tuple(sorted(gi or [])), kind))
+        # metadata: the commit id reported is the one used
+        md = (rg.get("results") or [{}, {}])[1].get("ok") if rg.get("stage") == "done" else None
+        if md and sha not in md:
+            run.violation("the commit id reported in the Git metadata is not the commit that was selected",
+                          {"selector": (kind, val), "expected_commit": sha, "metadata": md, "repository_history": [git(["log", "--all", "--oneline"], h.root)],
+                           "case": case_of(h, kind, val, sha, cfg_dir, x)})
+        if len(run.cov["samples"]) < 2:
+            run.cov["samples"].append({"selector": (kind, val), "commit": sha, "dir": cfg_dir, "ext": x,
+                                       "tree": [(m, p) for m, t, o, p in tree], "loaded_from_git": gi, "loaded_from_checkout": fi})
+    vals, errs = coq_eval("C08", IMPORTS, terms)
+    if errs:
+        raise Infra("coq evaluation failed: " + errs[0])
+    for k, v in zip(tmeta, vals):
+        bits = as_N(v)
+        if bits is None:
+            raise Infra("no result")
+        h, kind, val, sha, cfg_dir, x = meta[k]
+        rg, rf = res[2 * k], res[2 * k + 1]
+        if not (bits & 2):
+            tree = h.tree(sha)
+            run.violation("Git storage loads a different set of files than file-system storage on a checkout of the same commit",
+                          {"selector": (kind, val), "commit": sha, "dir": cfg_dir, "ext": x,
+                           "tree_of_commit": [(m, p, h.blob_id(sha, p)) for m, t, o, p in tree],
+                           "loaded_from_git": loaded_ids(rg), "git_stage": rg.get("stage"), "git_err": (rg.get("err") or "")[:300],
+                           "loaded_from_checkout": loaded_ids(rf), "fs_err": (rf.get("err") or "")[:200],
+                           "replay_hint": "build the tree with git (modes as listed), then tackler --input.git.repository <repo> --input.git.dir %s --input.git.commit %s" % (cfg_dir, sha),
+                           "case": case_of(h, kind, val, sha, cfg_dir, x)})
+        elif not (bits & 1):
+            run.cov["disagreements_checked"] += 1
+            run.violation("correspondence broken: Store.select_git differs from git_to_txns",
+                          {"correspondence": "C08_corr.c08_case", "selector": (kind, val), "commit": sha,
+                           "loaded_from_git": loaded_ids(rg), "git_err": (rg.get("err") or "")[:300],
+                           "case": case_of(h, kind, val, sha, cfg_dir, x)}, found_input=False)
+
+
 def replay(run, path):
-    j = json.load(open(path))
-    print(json.dumps(j, indent=1, ensure_ascii=False)[:6000])
-    return 0
+    """the stored repository is rebuilt with git plumbing (same commit ids), the stored selector is loaded through Git storage
+    and through file-system storage on `git archive` of the commit, and judged as in the normal run"""
+    j, rp, rc = replay_begin(run, path)
+    if rc is not None:
+        return rc
+    cs = rp.get("case")
+    if not (isinstance(cs, dict) and isinstance(cs.get("history"), dict)):
+        return replay_print(j)
+    print(j.get("what"))
+    kind, val = cs["selector"]
+    print("selector %s %s -> commit %s, dir %r, extension %r; %d commits, refs %s" % (kind, val, cs["commit"], cs["dir"], cs["ext"],
+          len(cs["history"]["commits"]), [r["name"] for r in cs["history"]["refs"]]))
+    print("tree of the commit: %s" % json.dumps([(m, p_) for c in cs["history"]["commits"] if c["sha"] == cs["commit"] for m, p_, o in c["tree"]]))
+    corr_build("C08")
+    harness_build()
+    root = os.path.join(CACHE, "c08-replay-%d" % os.getpid())
+    try:
+        new = rebuild_history(cs["history"], os.path.join(root, "repo"))
+        sha = new[cs["commit"]]
+        if sha != cs["commit"]:
+            print("note: commit ids differ in the rebuilt repository (%s is now %s): id selectors are translated" % (cs["commit"], sha))
+            if kind == "commit":
+                old = [c for c in new if c.startswith(val)]
+                val = new[old[0]][:len(val)] if old else val
+        h = History.__new__(History)
+        h.root, h.d, h.x = os.path.join(root, "repo"), cs["dir"], cs["ext"]
+        reqs = requests_for(h, kind, val, sha, cs["dir"], cs["ext"], root, J.make_toml())
+        res = harness_run(reqs)
+        print("Git storage now: %s; file-system storage on the checkout: %s" % (
+            loaded_ids(res[0]) if loaded_ids(res[0]) is not None else (res[0].get("stage"), (res[0].get("err") or "")[:200]),
+            loaded_ids(res[1]) if loaded_ids(res[1]) is not None else (res[1].get("stage"), (res[1].get("err") or "")[:200])))
+        judge(run, [(h, kind, val, sha, cs["dir"], cs["ext"])], res, set())
+    finally:
+        shutil.rmtree(root, ignore_errors=True)
+    return replay_verdict(run, path, j, "Git storage loads the files of the selected commit that file-system storage loads from its checkout, "
+                                        "reports that commit, and the model agrees")
